@@ -172,6 +172,9 @@ pub fn run(kind: &str, args: &[&str]) -> Option<Obs> {
             let (f, _) = build_font(&args[1..]);
             let mut buf = Buffer::new((80, 25));
             buf.set_font(0, f);
+            if args[0] == "adf" || args[0] == "idf" {
+                buf.ice_mode = icy_engine::IceMode::Ice; // the only mode these writers accept
+            }
             let mut opt = SaveOptions::default();
             opt.lossles_output = true;
             let bytes = match buf.to_bytes(args[0], &opt) {
